@@ -164,6 +164,23 @@ func CheckWord(c WordCase) (v vcase.Verdict) {
 		}
 	}
 
+	// --- the empty word as a unit: no measurement is in the unit "" (a measurement that needed no
+	// normalisation has no *other* name, which is not the same as having the name "")
+	if s == "" {
+		res := &benchfmt.Result{Name: benchfmt.Name("N"), Iters: 1, Values: []benchfmt.Value{{Value: 1, Unit: "u"}, {Value: 2e-9, Unit: "sec/op", OrigValue: 2, OrigUnit: "ns/op"}}}
+		for _, q := range []string{".unit:" + w, ".unit:(" + w + " OR zz)", ".unit:/^$/"} {
+			f, err := benchproc.NewFilter(q)
+			if err != nil {
+				v.Failf("NewFilter(%q): %v", q, err)
+				return
+			}
+			if m, _ := f.Match(res); m.Any() {
+				v.Failf("filter %q matches a measurement of a result whose units are u and sec/op (written ns/op)", q)
+				return
+			}
+		}
+	}
+
 	// --- in a fixed value list of a projection
 	if listOK {
 		res := &benchfmt.Result{Name: benchfmt.Name("N"), Iters: 1, Values: []benchfmt.Value{{Value: 1, Unit: "u"}},
